@@ -80,14 +80,17 @@ def _run_scenario(case):
                 barrier.wait(K.HANG)
             except threading.BrokenBarrierError:
                 pass
-            replies[i] = K.http_exchange(fam, addr, mats[i]["raw"], half_close=mats[i].get("half_close", False))
+            if mats[i]["k"] == "abandon":
+                replies[i] = K.http_send_and_leave(fam, addr, mats[i]["raw"])
+            else:
+                replies[i] = K.http_exchange(fam, addr, mats[i]["raw"], half_close=mats[i].get("half_close", False))
             if mats[i]["k"] != "slow":
                 with cnt_lock:
                     fast_left[0] -= 1
                     if fast_left[0] == 0:
                         fast_done.set()
 
-        n_slow = sum(1 for m in mats if m["k"] == "slow")
+        n_slow = sum(1 for m in mats if m["k"] in ("slow", "abandon"))
         overlap = K.pool_size(kind, pool) > n_slow     # a worker stays free for the other requests
 
         def opener(tok):
@@ -100,7 +103,7 @@ def _run_scenario(case):
 
         threads = [threading.Thread(target=client, args=(i,), name="c12-client-%d" % i, daemon=True) for i in range(n)]
         openers = [threading.Thread(target=opener, args=(m["tokens"] and list(m["tokens"])[0],), name="c12-opener", daemon=True)
-                   for m in mats if m["k"] == "slow"]
+                   for m in mats if m["k"] in ("slow", "abandon")]
         for t in threads + openers:
             t.start()
         for t in threads:
